@@ -37,6 +37,8 @@ type vfs struct {
 	stopped   bool
 	failed    bool
 	gate      func(op string) // scheduler hook (concurrent scenarios)
+	dead      func() bool     // the calling goroutine belongs to a stopped process
+	onCommit  func(op, name string, val []byte)
 	opKinds   []string
 }
 
@@ -52,8 +54,14 @@ var errVFSStopped = errors.New("vfs: process stopped")
 // step accounts one primitive operation; it returns an injected error, or
 // panics with vfsStop when the process stops here.
 func (v *vfs) step(kind string) (inject bool) {
+	if v.dead != nil && v.dead() {
+		return true // I/O of a stopped process fails without effect
+	}
 	if v.gate != nil {
 		v.gate(kind)
+	}
+	if v.dead != nil && v.dead() {
+		return true
 	}
 	v.nOps++
 	v.opKinds = append(v.opKinds, kind)
@@ -76,11 +84,25 @@ func (v *vfs) exit() {
 }
 
 type vfile struct {
-	v    *vfs
-	ino  *inode
-	name string
-	dir  bool
-	open bool
+	v          *vfs
+	ino        *inode
+	name       string
+	dir        bool
+	open       bool
+	off        int
+	appendMode bool
+}
+
+// put writes p at the descriptor's offset (overwriting, extending).
+func (f *vfile) put(p []byte) {
+	if f.appendMode {
+		f.off = len(f.ino.data)
+	}
+	for len(f.ino.data) < f.off+len(p) {
+		f.ino.data = append(f.ino.data, 0)
+	}
+	copy(f.ino.data[f.off:], p)
+	f.off += len(p)
 }
 
 func (f *vfile) Name() string { return f.name }
@@ -99,19 +121,19 @@ func (f *vfile) Write(p []byte) (int, error) {
 		if v.stopBytes < 0 {
 			n = 0
 		}
-		f.ino.data = append(f.ino.data, p[:n]...)
+		f.put(p[:n])
 		v.log = append(v.log, fmt.Sprintf("write %s %d of %d (stop)", f.name, n, len(p)))
 		v.stopped = true
 		panic(vfsStop{})
 	}
 	if v.failAt == v.nOps {
 		n = min(v.failBytes, n)
-		f.ino.data = append(f.ino.data, p[:n]...)
+		f.put(p[:n])
 		v.log = append(v.log, fmt.Sprintf("write %s %d of %d (error)", f.name, n, len(p)))
 		v.failed = true
 		return n, errVFS
 	}
-	f.ino.data = append(f.ino.data, p...)
+	f.put(p)
 	f.ino.synced = false
 	v.log = append(v.log, fmt.Sprintf("write %s %d", f.name, len(p)))
 	v.exit()
@@ -189,6 +211,71 @@ func (v *vfs) table() mqtt.VerifOS {
 			v.exit()
 			return &vfile{v: v, ino: ino, name: name, open: true}, nil
 		},
+		OpenFile: func(name string, flag int, perm os.FileMode) (mqtt.VerifFile, error) {
+			if v.stopped {
+				return nil, errVFSStopped
+			}
+			kind := "open"
+			if flag&os.O_CREATE != 0 {
+				kind = "create"
+			}
+			if v.step(kind) {
+				v.log = append(v.log, kind+" "+name+" (error)")
+				return nil, errVFS
+			}
+			ino := v.names[name]
+			switch {
+			case ino == nil && flag&os.O_CREATE == 0:
+				return nil, notExist("open", name)
+			case ino != nil && flag&os.O_CREATE != 0 && flag&os.O_EXCL != 0:
+				return nil, &os.PathError{Op: "open", Path: name, Err: syscall.EEXIST}
+			case ino == nil:
+				v.nextIno++
+				ino = &inode{id: v.nextIno}
+				v.names[name] = ino
+			}
+			if flag&os.O_TRUNC != 0 {
+				ino.data = nil
+			}
+			v.log = append(v.log, kind+" "+name)
+			v.exit()
+			return &vfile{v: v, ino: ino, name: name, open: true, appendMode: flag&os.O_APPEND != 0}, nil
+		},
+		WriteFile: func(name string, data []byte, perm os.FileMode) error {
+			// open(O_WRONLY|O_CREATE|O_TRUNC), write, close — in place, as os.WriteFile does
+			if v.stopped {
+				return errVFSStopped
+			}
+			if v.step("create") {
+				return errVFS
+			}
+			ino := v.names[name]
+			if ino == nil {
+				v.nextIno++
+				ino = &inode{id: v.nextIno}
+				v.names[name] = ino
+			}
+			ino.data = nil
+			v.log = append(v.log, "create "+name)
+			v.exit()
+			f := &vfile{v: v, ino: ino, name: name, open: true}
+			if _, err := f.Write(data); err != nil {
+				return err
+			}
+			return f.Close()
+		},
+		Stat: func(name string) (os.FileInfo, error) {
+			if v.names[name] == nil {
+				return nil, notExist("stat", name)
+			}
+			return nil, nil
+		},
+		Lstat: func(name string) (os.FileInfo, error) {
+			if v.names[name] == nil {
+				return nil, notExist("lstat", name)
+			}
+			return nil, nil
+		},
 		Open: func(name string) (mqtt.VerifFile, error) {
 			if v.stopped {
 				return nil, errVFSStopped
@@ -213,6 +300,9 @@ func (v *vfs) table() mqtt.VerifOS {
 			v.names[newpath] = ino
 			delete(v.names, oldpath)
 			v.log = append(v.log, "rename "+oldpath+" "+newpath)
+			if v.onCommit != nil {
+				v.onCommit("save", newpath, clone0(ino.data))
+			}
 			v.exit()
 			return nil
 		},
@@ -230,6 +320,9 @@ func (v *vfs) table() mqtt.VerifOS {
 			}
 			delete(v.names, name)
 			v.log = append(v.log, "remove "+name)
+			if v.onCommit != nil {
+				v.onCommit("delete", name, nil)
+			}
 			v.exit()
 			return nil
 		},
